@@ -33,6 +33,19 @@ def _pass(seed, count, nvals, label):
                                 nontrivial=lambda r, i: "1" in i and "0" in i)
     return p
 
+def _pass_ops(seed, count, label, lines_fn=None):
+    """`keyof T` and `T[K]` (two of the type forms the property lists): the C07 machinery — real compiler + runtime vs the Lean
+    port (tie) vs TypeScript's meaning of the operator (reference) — with the failures reported under this property"""
+    from checks import c07
+    def oracle(req, ir, second):
+        o = c07.spec_oracle(req, ir, second)
+        return o.replace("c07.", "c01.op-") if o else None
+    def p(chk):
+        lines = lines_fn(chk) if lines_fn else [l for l in chk.gen_js("sub-sem", seed, count, 10) if '("R" (keyof ' in l or '("R" (idx ' in l]
+        return vcheck.corr_pass(chk, "prog", lines, label, engine="two-stage", extra_oracle=oracle, oracle_filter=lambda o: None,
+                                nontrivial=lambda r, i: "1" in i and "0" in i)
+    return p
+
 def _corpus(chk):
     lines = vcheck.corpus_lines(PID)
     return vcheck.corr_pass(chk, "prog", lines, "prog(corpus)", engine="two-stage", extra_oracle=spec_oracle, known_matcher=known(chk))
@@ -42,13 +55,15 @@ RULE = ("type-directed random TsCore programs (aliases, generic aliases, interfa
         "Date/Map/Set/typed arrays, template literals) are printed as TypeScript, compiled by the REAL extract+emit_code, the emitted module is "
         "loaded against the REAL runtime and every exported validator is run on generated members, mutated near-misses and hostile values. "
         "Three bit-vectors per export: implementation, Lean compiler model (lower → IR → printer → runtime model) and the Lean declarative "
-        "reference ⟦·⟧ᵀˢ. tie = impl vs model; search = impl vs reference. non-trivial = program with both accepted and rejected values")
+        "reference ⟦·⟧ᵀˢ. tie = impl vs model; search = impl vs reference. non-trivial = program with both accepted and rejected values. A second pass takes the `keyof T` / `T[K]` "
+        "requests of the C07 generator (objects, unions, index signatures, arrays, tuples with rest indexed by literals, unions of literals and `number`): same three-way comparison "
+        "with TypeScript's meaning of the operator as the reference")
 
 def run(chk):
     chk.build_rust(); chk.build_js()
     quick = chk.tier == "quick"
-    passes = [_corpus] + ([_pass(chk.seed * 100 + 3, 1500, 16, "prog(random)")] if quick else
-                          [_pass(chk.seed * 100 + k, 6000, 24, f"prog(random#{k})") for k in range(8)])
+    passes = [_corpus] + ([_pass(chk.seed * 100 + 3, 1500, 16, "prog(random)"), _pass_ops(chk.seed * 100 + 4, 1500, "operators(random)")] if quick else
+                          [_pass(chk.seed * 100 + k, 6000, 24, f"prog(random#{k})") for k in range(8)] + [_pass_ops(chk.seed * 100 + 40 + k, 12000, f"operators(random#{k})") for k in range(2)])
     return vcheck.generic_run(chk, MODULES, AUDIT, passes,
         ["C01: Model/{TsCore,IR,Spec}.lean model frontend/mod.rs (extract_type_inner, named definitions, built-ins), ast/runtype.rs any_of/all_of and "
          "print/printer.rs print_runtype for the TsCore fragment by hand; outside the fragment (typeof of values, enums, keyof/indexed/mapped/conditional "
@@ -63,6 +78,10 @@ def run(chk):
 def replay(chk, path):
     chk.build_rust(); chk.build_js(); chk.build_lean(MODULES)
     lines = [l for l in open(path).read().split("\n") if l.strip() and not l.startswith(";")]
+    if lines and lines[0].startswith("(sem "):
+        st = _pass_ops(0, 0, "operators(replay)", lines_fn=lambda c: lines)(chk)
+        print(st)
+        return chk.finish("proof", {"evaluations": len(lines), "distinct_nontrivial": st["nontrivial"]})
     st = vcheck.corr_pass(chk, "prog", lines, "prog(replay)", engine="two-stage", extra_oracle=spec_oracle, known_matcher=known(chk))
     print(st)
     return chk.finish("proof", {"evaluations": len(lines), "distinct_nontrivial": st["nontrivial"]})
